@@ -345,10 +345,9 @@ class Envelope:
                     or len(states) == 0
                     or len(states) == 2
                 ):
-                    probabilities = (
-                        jnp.abs(jnp.sum(ps, axis=self.polarization.index)).flatten()
-                        ** 2
-                    )
+                    probabilities = jnp.sum(
+                        jnp.abs(ps) ** 2, axis=self.polarization.index
+                    ).flatten()
                     key = C.random_key
                     choice = int(
                         jax.random.choice(
@@ -372,9 +371,10 @@ class Envelope:
                     or len(states) == 0
                     or len(states) == 2
                 ):
-                    probabilities = (
-                        jnp.abs(jnp.sum(ps, axis=self.fock.index)).flatten() ** 2
-                    )
+                    probabilities = jnp.sum(
+                        jnp.abs(ps) ** 2, axis=self.fock.index
+                    ).flatten()
+                    probabilities = probabilities / jnp.sum(probabilities)
                     key = C.random_key
                     choice = int(
                         jax.random.choice(
